@@ -272,6 +272,7 @@ class Prop:
     # ------------------------------------------------------------------
     def build_pair(self, desc):
         U = B.make_universe(desc["univ"])
+        base = H.alloc_count()
         t0 = Tree("T0")
         t1 = Tree("T1")
         try:
@@ -279,16 +280,17 @@ class Prop:
             B.add_nodes(t1._root, desc["t1"], U, False)
         except Exception:
             return None
-        return U, t0, t1
+        return U, t0, t1, base
 
     def run(self, desc) -> Case:
         built = self.build_pair(desc)
         if built is None:
             # description violates sibling uniqueness (possible after shrinking / out-of-domain labelling): trivial case
             return Case(desc=desc, coq_input="([], [], [])", impl_obs=[[], [], []], nontrivial=False, key=H.digest(desc))
-        U, t0, t1 = built
-        in0, in1 = H.coq_forest(t0._root, U), H.coq_forest(t1._root, U)
-        before = (H.sx_forest(t0._root, U), H.sx_forest(t1._root, U))
+        U, t0, t1, base = built
+        # node identities local to the case (allocation index minus the index at the start of the case): unary nat in Coq
+        in0, in1 = coq_forest(t0._root, U, base), coq_forest(t1._root, U, base)
+        before = (sx_forest(t0._root, U, base), sx_forest(t1._root, U, base))
         outside = bool(desc.get("outside"))
         cfgs = desc.get("configs") or CONFIGS
         obs_runs = []
@@ -307,7 +309,7 @@ class Prop:
             finally:
                 _SNAP["on"] = False
             snap = _SNAP["val"]
-            after = (H.sx_forest(t0._root, U), H.sx_forest(t1._root, U))
+            after = (sx_forest(t0._root, U, base), sx_forest(t1._root, U, base))
             if after != before:
                 fails.append(f"inputs-modified: ordered={ordered} reduce={reduce}")
             if err is not None:
@@ -317,7 +319,7 @@ class Prop:
                 if not outside:
                     fails.append(f"raised: {type(err).__name__} ordered={ordered} reduce={reduce}")
                 continue
-            hints = compute_hints(res, t0, t1)
+            hints = [h - base for h in compute_hints(res, t0, t1)]
             coq_cfgs.append(f"({H.coq_bool(ordered)}, {H.coq_bool(reduce)}, {H.coq_list(H.z(h) for h in hints)})")
             rm = res._root._meta or {}
             obs_runs.append([[[str(k), H.meta_val(v)] for k, v in rm.items()], obs_forest(res._root, U)])
@@ -329,13 +331,30 @@ class Prop:
                     fails.append(f"{f} [ordered={ordered} reduce={reduce}]")
         obs = [obs_runs, before[0], before[1]]
         # the model is compared against the inputs as observed AFTER the calls
-        obs[1], obs[2] = H.sx_forest(t0._root, U), H.sx_forest(t1._root, U)
+        obs[1], obs[2] = sx_forest(t0._root, U, base), sx_forest(t1._root, U, base)
         coq_input = f"({in0}, {in1}, {H.coq_list(coq_cfgs)})"
         n0, n1 = B.nodes_size(desc["t0"]), B.nodes_size(desc["t1"])
         return Case(desc=desc, coq_input=coq_input, impl_obs=obs, oracle_fail="; ".join(fails[:3]) if fails else None,
                     nontrivial=marks > 0, key=H.digest([desc["univ"], desc["t0"], desc["t1"]]),
                     stats=dict(n0=min(n0, 16), n1=min(n1, 16), marked=marks > 0, ambiguous=ambiguous, raised=errors > 0,
                                outside=outside))
+
+
+def coq_rt(node, U, base):
+    ch = node._children or []
+    return f"(Tz {H.nid(node) - base} {H.coq_info(node, U)} {H.coq_list(coq_rt(c, U, base) for c in ch)})"
+
+
+def coq_forest(root, U, base):
+    return H.coq_list(coq_rt(c, U, base) for c in (root._children or []))
+
+
+def sx_rt(node, U, base):
+    return [H.nid(node) - base, H.sx_info(node, U), [sx_rt(c, U, base) for c in (node._children or [])]]
+
+
+def sx_forest(root, U, base):
+    return [sx_rt(c, U, base) for c in (root._children or [])]
 
 
 def obs_forest(root, U):
